@@ -231,6 +231,34 @@ func ruleErrPassthrough(c *Ctx) {
 			R.Ob(c.siteKey(site, "callback error reaches writeError"), c.P.InstrPos(site), found, "the error of "+x.cb+" is not reported through writeError")
 			site := site
 			c.obFollowH("callback error is reported", f, func(in ssa.Instruction) bool { return in == site }, []string{"call:(*Conn).writeError"}, x.errDesc+" != nil")
+			// the first reply after a failed callback is writeError(451, 4.x.x, <the callback's error itself>): no path
+			// answers with a copy, a rewritten error or another code first
+			good := func(in ssa.Instruction) bool {
+				if !isStaticCall(in, "(*Conn).writeError") {
+					return false
+				}
+				cc := callCommon(in)
+				code, _ := constInt(cc.Args[1])
+				kind, class := enhancedArg(cc.Args[2])
+				return describe(cc.Args[3]) == x.errDesc && code == 451 && kind == "const" && class == 4
+			}
+			v := RunPend(f, PendRule{
+				Trig:  func(in ssa.Instruction) bool { return in == site },
+				Disch: good,
+				Forbid: func(in ssa.Instruction) bool {
+					if _, ok := in.(*ssa.Defer); ok || in == site || good(in) {
+						return false
+					}
+					return s.InstrMay(in)["reply"]
+				},
+				SkipEdge: c.F.SkipUnder(x.errDesc + " != nil"),
+				PhiOK:    c.F.PhiFeasible(x.errDesc + " != nil"),
+			})
+			d := ""
+			if len(v) > 0 {
+				d = fmt.Sprintf("after %s fails, the path reaches the reply at %s which is not writeError(451, 4.x.x, %s): the backend's error is replaced, copied or answered with another code", x.cb, c.P.InstrPos(v[0].At), x.errDesc)
+			}
+			R.Ob(c.siteKey(site, "first reply after a failed callback carries the callback's error"), c.P.InstrPos(site), len(v) == 0, d)
 		}
 	}
 
